@@ -1041,10 +1041,12 @@ def translator_stage(run):
                       dict(theorem='gen_sound_' + rule, rule=rule, reason=why), failing_input=False)
     bad = sorted(r for r, (st, _) in results.items() if st == 'FAILED')
     for rule in bad:
-        run.violation('proof', 'the soundness lemma gen_sound_%s of the rule as translated from the current source no longer checks' % rule,
+        which = 'gen_eq_hand_%s (regenerated definition = hand-written model)' % rule if 'gen_eq_hand' in results[rule][1] and 'gen_sound_%s is' % rule not in results[rule][1] and 'in proof gen_sound' not in results[rule][1] else 'gen_sound_%s (soundness)' % rule
+        run.violation('proof', 'an obligation of the rule %s as translated from the current source no longer checks: ' % rule + which,
                       dict(theorem='gen_sound_' + rule, rule=rule, definition=defs[rule], log=results[rule][1][-1500:]), failing_input=False)
     run.cov['regenerated_model'] = dict(translator='harness/c18_translate.py (Python ast -> Gallina over AletheGen.v, fail closed)',
                                         rules=len(T.RULES), translated=len(defs), untranslatable=sorted(failed),
+                                        obligations_per_rule=['gen_sound_<rule>: the accepted clause holds wherever the premises hold', 'gen_eq_hand_<rule>: the regenerated definition equals the hand-written model, all inputs'],
                                         lemmas_proved=sum(1 for st, _ in results.values() if st == 'proved'),
                                         lemmas_cached=sum(1 for st, _ in results.values() if st == 'cached'), lemmas_failed=bad)
     return defs
